@@ -34,16 +34,17 @@ def run(ctx):
 
     # (b) ledger monitor on real stepping loops
     exe = ctx.compile_harness([os.path.join(HERE, "harness", "loop.cc")], "loop", libs=M.LIBS, test_includes=True)
-    specs = M.gen_specs(ctx.rng, ctx.tier)
+    specs = M.gen_specs(ctx.rng, ctx.tier) + M.gen_specs_extra(ctx.rng, ctx.tier)
     rc, out = M.execute(ctx, exe, specs)
     runs = M.parse_runs(out, specs)
     if rc != 0 or len(runs) != len(specs) or any(r.end is None for r in runs):
         raise vlib.BuildError("loop harness failed rc=%d (%d/%d runs)" % (rc, len(runs), len(specs)), out[-3000:])
-    tot = dict(events=0, tracks=0, complete_events=0, records=0, exc=0, antiparticle_kills=0)
+    tot = dict(events=0, tracks=0, complete_events=0, records=0, exc=0, antiparticle_kills=0, antiparticle_range_kills=0)
     nviol = 0
     for run_ in runs:
         s = run_.spec
         ctx.count("problem:%s/cut%d" % (s["problem"], s["cutmode"]))
+        ctx.count("track_order:" + M.TRACK_ORDERS[s.get("track_order", 0)])
         ctx.count("slots:%d" % s["slots"])
         ctx.count("capacity:%s" % ("ample" if s["capacity"] >= 4096 else "tight"))
         if run_.exc:
@@ -52,10 +53,10 @@ def run(ctx):
             if "capacity" not in run_.exc:
                 ctx.notes.append("stepper threw: " + run_.exc[:300])
         viol, st = M.ledger_check(run_)
-        for k in ("events", "tracks", "complete_events", "antiparticle_kills"):
+        for k in ("events", "tracks", "complete_events", "antiparticle_kills", "antiparticle_range_kills"):
             tot[k] += st[k]
         tot["records"] += len(run_.recs)
-        key = (s["problem"], s["cutmode"], s["seed"], s["slots"], s["capacity"])
+        key = (s["problem"], s["cutmode"], s["seed"], s["slots"], s["capacity"], s.get("track_order", 0), s.get("fixed_limit", 0))
         ctx.case(key, nontrivial=st["complete_events"] > 0 and len(run_.recs) > 0)
         ctx.sample(dict(problem=s["problem"], cutmode=s["cutmode"], slots=s["slots"], capacity=s["capacity"],
                         primaries=len(s["prims"]), records=len(run_.recs), deposit=st["deposit"],
@@ -64,7 +65,7 @@ def run(ctx):
             nviol += 1
             found_input = True
             if nviol <= 4:
-                ctx.violation(kind, "%s [%s cut=%d slots=%d cap=%d]" % (what, s["problem"], s["cutmode"], s["slots"], s["capacity"]),
+                ctx.violation(kind, "%s [%s cut=%d slots=%d cap=%d track_order=%s]" % (what, s["problem"], s["cutmode"], s["slots"], s["capacity"], M.TRACK_ORDERS[s.get("track_order", 0)]),
                               dict(spec=dict(s), harness_input=M.spec_line(s), detail=detail))
     ctx.log("ledger monitor: %r" % tot)
     ctx.coverage["ledger_monitor"] = tot
